@@ -197,7 +197,39 @@ fn gen_out(rng: &mut Prng) -> OutMessage {
     }
 }
 
+/// identifier text whose UTF-8 BYTE length (not its character count) is 20, 19 or 21: some
+/// two-, three- or four-byte characters and ASCII filling, in random order
+fn id_text_by_bytes(rng: &mut Prng) -> String {
+    let target = *rng.pick(&[20usize, 20, 20, 19, 21]);
+    let mut chars: Vec<char> = Vec::new();
+    let mut bytes = 0usize;
+    let n_wide = 1 + rng.below(5) as usize;
+    for _ in 0..n_wide {
+        let c = match rng.below(4) {
+            0 | 1 => char::from_u32(0x80 + rng.below(0x80) as u32).unwrap(), // 2 bytes, a valid id character
+            2 => *rng.pick(&['\u{100}', '\u{20ac}', '\u{7ff}', '\u{800}']),
+            _ => '\u{1f600}',
+        };
+        if bytes + c.len_utf8() <= target {
+            bytes += c.len_utf8();
+            chars.push(c);
+        }
+    }
+    while bytes < target {
+        chars.push((b'a' + rng.below(26) as u8) as char);
+        bytes += 1;
+    }
+    for i in (1..chars.len()).rev() {
+        let j = rng.below(i as u64 + 1) as usize;
+        chars.swap(i, j);
+    }
+    chars.into_iter().collect()
+}
+
 fn id_text(rng: &mut Prng) -> String {
+    if rng.chance(1, 5) {
+        return id_text_by_bytes(rng);
+    }
     let len = *rng.pick(&[0usize, 1, 19, 20, 20, 20, 20, 20, 20, 20, 20, 20, 20, 21, 25, 40]);
     let mut s = String::new();
     for _ in 0..len {
